@@ -497,6 +497,32 @@ fn stream_frames(rng: &mut Rng, out: &mut Out, thorough: bool) {
                 }
                 Ok(r) => r.ok().map(|b| b.to_vec()),
             };
+            // the same frame as it arrives on a connection: LengthDelimitedCodecWithCompress (length prefix,
+            // the relay protocol's 4 MB frame limit) must give what decompress gives — same bytes or an error,
+            // and never more than the declared bound
+            if frame.len() + 1 <= 4 * 1024 * 1024 && !frame.is_empty() {
+                use tokio_util::codec::{length_delimited::LengthDelimitedCodec, Decoder};
+                let mut wire = BytesMut::with_capacity(frame.len() + 4);
+                wire.extend_from_slice(&(frame.len() as u32).to_be_bytes());
+                wire.extend_from_slice(&frame);
+                let mut codec = ckb_network::compress::LengthDelimitedCodecWithCompress::new(true, LengthDelimitedCodec::builder().max_frame_length(4 * 1024 * 1024).new_codec(), 101usize.into());
+                match silent(|| codec.decode(&mut wire)) {
+                    Err(p) => out.violation(&format!("the frame codec panicked: {p}"), json!({"frame_prefix": hex(&frame[..std::cmp::min(64, frame.len())]), "frame_len": frame.len(), "how": how}), None),
+                    Ok(r) => {
+                        let via_codec: Option<Vec<u8>> = r.ok().flatten().map(|b| b.to_vec());
+                        out.count("frames_through_the_codec");
+                        if let Some(o) = &via_codec {
+                            if o.len() > MAX {
+                                out.violation("the frame codec yielded a message above the declared bound of 8 MB", json!({"frame_len": frame.len(), "out_len": o.len(), "how": how}), None);
+                            }
+                        }
+                        // one-byte frames are an error for the codec (flag byte without body) and Ok(empty) never occurs for decompress
+                        if frame.len() >= 2 && via_codec != res {
+                            out.violation("the frame codec and compress::decompress disagree on the same frame", json!({"frame_len": frame.len(), "how": how, "codec": via_codec.as_ref().map(|o| o.len()), "decompress": res.as_ref().map(|o| o.len())}), None);
+                        }
+                    }
+                }
+            }
             // property: bounded output, honest frames round-trip
             if let Some(o) = &res {
                 if o.len() > std::cmp::max(MAX, frame.len()) {
